@@ -9,6 +9,8 @@ package main
 import (
 	"bufio"
 	"bytes"
+	"os"
+	"path/filepath"
 	"context"
 	"crypto/tls"
 	"fmt"
@@ -31,6 +33,7 @@ import (
 type e2eScript struct {
 	ct      string
 	respAE  string
+	respCE  string
 	segs    [][]byte
 	framing string // cl | chunked | close   (raw h1 origin)
 	gap     time.Duration
@@ -47,6 +50,7 @@ type e2eOrigins struct {
 }
 
 var theOrigins *e2eOrigins
+var dlDir string
 var e2eClients = map[string]*req.Client{}
 
 func startE2E() (*e2eOrigins, error) {
@@ -120,6 +124,9 @@ func (o *e2eOrigins) handler(w http.ResponseWriter, r *http.Request) {
 	if s.respAE != "" {
 		w.Header().Set("Accept-Encoding", s.respAE)
 	}
+	if s.respCE != "" {
+		w.Header().Set("Content-Encoding", s.respCE)
+	}
 	w.WriteHeader(200)
 	f, _ := w.(http.Flusher)
 	for _, seg := range s.segs {
@@ -168,6 +175,9 @@ func (o *e2eOrigins) serveRaw(c net.Conn) {
 	}
 	if s.respAE != "" {
 		head += "Accept-Encoding: " + s.respAE + "\r\n"
+	}
+	if s.respCE != "" {
+		head += "Content-Encoding: " + s.respCE + "\r\n"
 	}
 	switch s.framing {
 	case "cl":
@@ -278,7 +288,7 @@ func driveE2E(u *unitCase) (o obs) {
 	if i := strings.Index(u.Stack, "-"); i > 0 {
 		framing = u.Stack[i+1:]
 	}
-	id := theOrigins.add(&e2eScript{ct: u.Doc.CT, respAE: u.Set.RespAE, segs: u.Chunks, framing: framing, gap: time.Duration(u.GapMS) * time.Millisecond})
+	id := theOrigins.add(&e2eScript{ct: u.Doc.CT, respAE: u.Set.RespAE, respCE: u.Set.RespCE, segs: u.Chunks, framing: framing, gap: time.Duration(u.GapMS) * time.Millisecond})
 	done := make(chan obs, 1)
 	go func() {
 		var o obs
@@ -302,11 +312,15 @@ func driveE2E(u *unitCase) (o obs) {
 			// 32 KiB buffer)
 			rq := cl.R().SetContext(ctx)
 			var buf bytes.Buffer
+			file := ""
 			switch u.HLMode {
 			case "buffer":
 				rq.SetOutput(&buf)
 			case "writer":
 				rq.SetOutput(plainWriter{&buf})
+			case "file": // SetOutputFile: os.Create + io.Copy (*os.File.ReadFrom -> generic copy, 32 KiB buffer)
+				file = filepath.Join(dlDir, fmt.Sprintf("dl-%d.bin", id))
+				rq.SetOutputFile(file)
 			}
 			resp, err := rq.Get(url)
 			if err != nil {
@@ -314,9 +328,28 @@ func driveE2E(u *unitCase) (o obs) {
 				return
 			}
 			o.Kind = "highlevel"
-			if u.HLMode == "buffer" || u.HLMode == "writer" {
+			switch u.HLMode {
+			case "buffer", "writer":
 				o.Out = buf.Bytes()
-			} else {
+			case "file":
+				b, err := os.ReadFile(file)
+				os.Remove(file)
+				if err != nil {
+					o.Fatal = "output file: " + err.Error()
+					return
+				}
+				o.Out = b
+			case "string": // Response.String()
+				o.Out = []byte(resp.String())
+			case "into": // Response.Into(&v): the body is one JSON string literal
+				var s string
+				if err := resp.Into(&s); err != nil {
+					o.Fatal = "Response.Into failed on the delivered body: " + err.Error()
+					o.Out = resp.Bytes()
+					return
+				}
+				o.Out = []byte(`"` + s + `"`)
+			default:
 				o.Out = resp.Bytes()
 			}
 			o.EndErr = "EOF"
@@ -381,12 +414,15 @@ func (w *world) endToEnd() {
 	}
 	theOrigins = o
 	defer o.close()
+	dlDir = filepath.Join(w.r.OutDir, "downloads")
+	os.MkdirAll(dlDir, 0o755)
+	defer os.RemoveAll(dlDir)
 	rnd := w.rnd
 	n := w.r.Scale(170, 1500)
-	sets := []settings{defaultSet, defaultSet, defaultSet, {Sel: "all"}, {Sel: "default", Disable: true}, {Sel: "list", List: []string{"html"}}, {Sel: "default", RespAE: "gzip"}}
+	sets := []settings{defaultSet, defaultSet, defaultSet, {Sel: "all"}, {Sel: "default", Disable: true}, {Sel: "list", List: []string{"html"}}, {Sel: "default", RespAE: "gzip"}, {Sel: "default", RespCE: "x-custom"}}
 	for i := 0; i < n; i++ {
 		cs := &charsetTable[i%len(charsetTable)]
-		s := hk.Pick(rnd, []site{siteHeader, siteMeta, siteHTTPEquiv, siteNone, siteConflict, siteLateMeta, siteHdrUTF8, siteTextFirst})
+		s := hk.Pick(rnd, []site{siteHeader, siteMeta, siteHTTPEquiv, siteNone, siteConflict, siteLateMeta, siteHdrUTF8, siteTextFirst, siteNoDecl, sitePragmaThenMeta})
 		if cs.UTF16 {
 			s = hk.Pick(rnd, []site{siteHeader, siteBOM})
 		}
@@ -413,8 +449,22 @@ func (w *world) endToEnd() {
 		default:
 			segs = splitAt(d.Body, []int{hk.Pick(rnd, io), hk.Pick(rnd, io) + rnd.Intn(9)})
 		}
+		hl := []string{"bytes", "buffer", "writer", "string", "into", "file"}[(i/3)%6]
+		if st := sets[i%len(sets)]; hl == "into" && (st.Disable || st.RespCE != "" || st.Sel != "default") {
+			hl = "string" // Into on an undecoded body would go through encoding/json's own U+FFFD substitution
+		}
+		if i%3 == 2 && hl == "into" {
+			// a JSON document consisting of one string literal, charset in Content-Type
+			text := hk.Pick(rnd, cs.Texts)
+			if b, ok := cs.encodeText(`"` + text + text + `"`); ok && !cs.UTF16 && !cs.UTF8 && cs.Name != "iso-2022-jp" {
+				d = &doc{Site: siteHeader, Charset: cs.Name, CT: "application/json; charset=" + cs.Name, HdrCS: cs.Name, Body: b, BodyLen: len(b)}
+				segs = splitAt(d.Body, []int{rnd.Intn(len(b) + 1)})
+			} else {
+				hl = "string"
+			}
+		}
 		u := &unitCase{Kind: "e2e", Doc: d, Set: sets[i%len(sets)], Chunks: segs, Pattern: hk.Pick(rnd, sizePatterns[3:]),
-			BufMode: hk.Pick(rnd, []string{"zero", "stale-meta", "reuse"}), FailAt: -1, Stack: e2eStacks[i%len(e2eStacks)], GapMS: 6, HighLevel: i%6 == 5, HLMode: []string{"bytes", "buffer", "writer"}[(i/6)%3]}
+			BufMode: hk.Pick(rnd, []string{"zero", "stale-meta", "reuse"}), FailAt: -1, Stack: e2eStacks[i%len(e2eStacks)], GapMS: 6, HighLevel: i%3 == 2, HLMode: hl}
 		w.eval(u, len(d.Body) <= 1600)
 	}
 }
